@@ -69,7 +69,9 @@ class Check:
         full = "%s:%s" % (rule, key)
         v = {"property": self.pid, "rule": rule, "key": full, "message": msg, "where": loc,
              "rule_text": self.rules.get(rule, ""), "detail": detail, "path": path}
-        kf = self.known.get((self.pid, full))
+        # the same construct seen in another build configuration is the same finding
+        canon = full.replace(":base/", ":", 1).replace(":xen/", ":", 1)
+        kf = self.known.get((self.pid, full)) or self.known.get((self.pid, canon))
         if kf is not None:
             self.known_hits.append((kf, v))
         else:
